@@ -7,6 +7,10 @@ CONSTANTS
   MutDepth = 0
   VarLens = {0,1,2,3,127,128,245,246,247,248,249,250,251,252,253,254,255,256,257,258,259,260,511,512,1024}
   BigLens = {7167,7168}
+  BodyAlphabet = {}
+  BodyExtra = 0
+  BodyCap = 0
+  RepCap = 0
   ShortIds <- ShortAll
   ShortPairIds <- ShortPairs
 INIT InitPkt
